@@ -15,6 +15,10 @@ pub mod error;
 mod util;
 mod xz;
 
+#[cfg(feature = "verif")]
+#[doc(hidden)]
+pub mod verif;
+
 use std::io;
 
 /// Compression helpers.
